@@ -27,6 +27,7 @@ func runC09(c *Ctx) {
 	c.NotCovered("that random splits sum to the whole (arithmetic of the random draws); multi-datagram continuity at run time")
 	c.Clause("C09.6 every store that takes bytes out of the CRYPTO write buffer advances writeOffset by exactly the bytes removed (or, in scrambled mode, cuts at end once writeOffset == end)")
 	c.Clause("C09.8 plannedInitialPayload registers every CRYPTO frame of a planned datagram with the Initial retransmission handler (per-iteration must-pass)")
+	c.Clause("C09.9 splitRange clamps the number of frames to the number of bytes of the range")
 	c.Clause("C09.7 the scrambler's ECH cut ends inside the ClientHello (bounded by end)")
 	c.NotCovered("the upstream anti-DPI scrambler's remaining cut arithmetic (findSNIAndECH, cut ordering in initialCryptoStream.PopCryptoFrame)")
 
@@ -38,6 +39,7 @@ func runC09(c *Ctx) {
 	c.rule("C09.6", func() { c09OffsetAccounting(c) })
 	c.rule("C09.7", func() { c09CutBounds(c) })
 	c.rule("C09.8", func() { c09PlannedRegistered(c) })
+	c.rule("C09.9", func() { c09SplitClamp(c) })
 }
 
 func c09Flight(c *Ctx) {
